@@ -22,6 +22,7 @@ import (
 	"time"
 
 	"github.com/facebookincubator/dns/dnsrocks/dnsdata"
+	"github.com/facebookincubator/dns/dnsrocks/verifhook"
 
 	"github.com/golang/glog"
 	"github.com/miekg/dns"
@@ -170,8 +171,11 @@ func (f *DB) Reload(path string, validationKey []byte, reloadTimeout time.Durati
 
 	// reload goroutine
 	go func() {
+		verifhook.Enter("dbreload.worker")
+		defer verifhook.Exit()
 		var localDBI DBI
 		localDBI, err = f.dbi.Reload(path)
+		verifhook.Yield("dbreload.worker.loaded")
 		m.Lock()
 		defer m.Unlock()
 		if localDBI != nil && destroyNewDbi && localDBI != f.dbi {
@@ -184,6 +188,7 @@ func (f *DB) Reload(path string, validationKey []byte, reloadTimeout time.Durati
 
 	select {
 	case <-ctx.Done():
+		verifhook.Yield("dbreload.timeout")
 		// when we hit timeout
 		// 1) If the newDBI is already created, we want to have it freed.
 		// This can due to current select block been put to sleep\preempted for more then reloadTimeout
@@ -199,6 +204,7 @@ func (f *DB) Reload(path string, validationKey []byte, reloadTimeout time.Durati
 		}
 		return f, ErrReloadTimeout
 	case <-c:
+		verifhook.Yield("dbreload.done")
 		// if we reach here, it mean the above reload goroutine already returned
 		if err != nil {
 			return f, err
@@ -212,6 +218,7 @@ func (f *DB) Reload(path string, validationKey []byte, reloadTimeout time.Durati
 			return f, err
 		}
 
+		verifhook.Yield("dbreload.validated")
 		if newDBI != f.dbi {
 			glog.Infof("New DBI, old one will be destroyed")
 			// we have to deal with it here in this fashion because we handle refcounter on this level
